@@ -102,6 +102,11 @@ def run(R):
         else:
             R.ob(name, 'not_discharged', dt, {'crosshair': msg[-300:]})
         R.sample({'N': n, 'order': order, 'verdict': v, 'secs': round(dt, 1), 'twin': rv})
+    open_obs = [o['name'] for o in R.obligs if o['status'] == 'not_discharged']
+    if set(rules) != {'rdiv', 'rint'} and open_obs and not R.violations:
+        # a float idiom was edited away and the uncut method could not be decided: source no longer translatable
+        raise HarnessError(f'float idioms recognised: {rules} (expected rdiv, rint) and {len(open_obs)} obligations on the '
+                           'uncut code are undecided')
 
 
 def replay(path):
